@@ -505,6 +505,54 @@ fn found(prop: &str, msg: String, replay: Value) -> Found {
     Found { property: prop.into(), signature: format!("{prop}:{}", msg.split_whitespace().take(8).collect::<Vec<_>>().join(" ")), msg, replay }
 }
 
+/// Uploads whose body transfer breaks off (in-process: the payload stream reports an error after
+/// some chunks): the request must be refused and change nothing.
+fn broken_body_cases(fx: &mut Fixture, cov: &mut Cov) -> Option<Found> {
+    for route in [Route::AddVersion, Route::AddSnapshot] {
+        for (name, nchunks, fail_after) in [("error-before-any-chunk", 0usize, 0usize), ("error-after-1-chunk", 3, 1), ("error-after-2-chunks", 3, 2), ("error-after-all-chunks", 2, 2)] {
+            for client_new in [false, true] {
+                let c = 0;
+                let id = *fx.chains[c].last().unwrap();
+                let cid = if client_new { Uuid::new_v4() } else { fx.clients[c] };
+                let (path, ct) = match route {
+                    Route::AddVersion => (format!("/v1/client/add-version/{}", if client_new { Uuid::nil() } else { id }), CT_HISTORY),
+                    _ => (format!("/v1/client/add-snapshot/{id}"), CT_SNAPSHOT),
+                };
+                if !fx.extra_clients.contains(&cid) && client_new {
+                    fx.extra_clients.push(cid);
+                }
+                fx.last_dump = Some(fx.dump());
+                let mut req = HttpReq::new("POST", &path).header("X-Client-Id", &cid.to_string()).header("Content-Type", ct).body_chunks((0..nchunks).map(|i| vec![b'a' + i as u8; 40 + i]).collect());
+                req.fail_after = Some(fail_after);
+                let resp = fx.subj.http(&req);
+                cov.evaluations += 1;
+                cov.hit(format!("broken-body:{:?}:{name}:{}:status={}", route, if client_new { "never-seen-client" } else { "known-client" }, resp.status));
+                let after = fx.dump();
+                let changed = fx.last_dump.as_ref().map(|b| *b != after).unwrap_or(false);
+                let diff = if changed { fx.last_dump.as_ref().unwrap().diff(&after) } else { String::new() };
+                fx.last_dump = Some(after);
+                if resp.status == 200 && route == Route::AddVersion && !client_new {
+                    if let Some(v) = resp.header("X-Version-Id").and_then(|s| Uuid::parse_str(s).ok()) {
+                        fx.chains[c].push(v);
+                        fx.ids.push(v);
+                    }
+                }
+                let desc = format!("POST {path} whose body transfer fails ({name}, {})", if client_new { "never-seen client" } else { "known client" });
+                if resp.status >= 500 && resp.failure.is_none() || resp.failure.as_ref().map(|f| f.contains("panic")).unwrap_or(false) {
+                    return Some(found("C15", format!("{desc} made the server fail: {}", resp.describe()), json!({"origin": "broken-body", "case": name})));
+                }
+                if (200..300).contains(&resp.status) {
+                    return Some(found("C15", format!("{desc} was answered {} (the truncated upload was accepted) instead of being refused", resp.status), json!({"origin": "broken-body", "case": name})));
+                }
+                if changed {
+                    return Some(found("C15", format!("{desc} was refused ({}) but stored state changed: {diff}", resp.status), json!({"origin": "broken-body", "case": name})));
+                }
+            }
+        }
+    }
+    None
+}
+
 /// Large-body cases around the 100 MiB limit (in-process, exact chunk control).
 fn large_body_cases(fx: &mut Fixture, cov: &mut Cov, tap: &mut dyn FnMut(&HttpReq, &HttpResp)) -> Option<Found> {
     for route in [Route::AddVersion, Route::AddSnapshot] {
@@ -747,6 +795,13 @@ pub fn shard_run_grammar(prop: &str, tier: &str, seed: u64, replay_case: Option<
                 }
             }
         }
+        if replay_case.is_none() && shard.k == (4 % shard.n) && prop == "C15" {
+            if let Some(f) = broken_body_cases(&mut fx, &mut cov) {
+                out.found.push(f);
+                out.cov = cov;
+                return out;
+            }
+        }
         // the 100 MiB cases: one worker, in-memory backend (thorough: SQLite as well)
         if replay_case.is_none() && shard.k == (1 % shard.n) && (*backend == Backend::Mem || thorough) && prop == "C15" {
             let t2 = tally.clone();
@@ -807,7 +862,7 @@ pub fn finalize_grammar(prop: &str, tier: &str, out: ShardOut, is_replay: bool) 
     top.sort_by(|a, b| b.1.cmp(a.1));
     let statuses: HashSet<String> = cov.situations.keys().filter(|k| k.starts_with("resp|")).map(|k| k.rsplit('|').next().unwrap().to_string()).collect();
     let rule = if prop == "C15" {
-        "grammar product route x method x client-id form x path-id form x content-type form x body class (dull corners sampled), executed in-process against servers holding 3 clients with chains and snapshots on both backends; each request is classified must-refuse / must-serve / ambiguous from the statement; universal rules: never 5xx/panic, stored state (full dump) changes only on a 200 POST to an add route; must-refuse => 4xx and unchanged state; bodies of limit-1, limit (one chunk, 1 MiB chunks) accepted and read back, limit+1 (one chunk, many chunks, limit then 1 byte) refused. distinct_nontrivial = distinct (route, method, class, status) plus response tallies."
+        "grammar product route x method x client-id form x path-id form x content-type form x body class (dull corners sampled), executed in-process against servers holding 3 clients with chains and snapshots on both backends; each request is classified must-refuse / must-serve / ambiguous from the statement; universal rules: never 5xx/panic, stored state (full dump) changes only on a 200 POST to an add route; must-refuse => 4xx and unchanged state; bodies of limit-1, limit (one chunk, 1 MiB chunks) accepted and read back, limit+1 (one chunk, many chunks, limit then 1 byte) refused; uploads whose body transfer breaks off after 0/1/2/all chunks (known and never-seen clients) must be refused and change nothing. distinct_nontrivial = distinct (route, method, class, status) plus response tallies."
     } else {
         "every response produced by the grammar run (all routes, methods, refusals, unknown routes), by protocol histories through the handlers (200/404/409/410) and by requests against a storage that fails on purpose (500) is inspected by a tap in the HTTP client layer: Cache-Control must contain the no-store directive. distinct_nontrivial = distinct (route class, method, status) triples observed."
     };
@@ -823,7 +878,7 @@ pub fn finalize_grammar(prop: &str, tier: &str, out: ShardOut, is_replay: bool) 
     });
     let mut required: Vec<&str> = vec!["status=200", "status=400", "status=404"];
     if prop == "C15" {
-        required.extend(["large:AddVersion:limit/one-chunk:status=200", "large:AddVersion:limit+1/one-chunk:status=400", "large:AddSnapshot:limit+1/limit-then-1:status=400", "MustRefuse", "MustServe", "Ambiguous"]);
+        required.extend(["broken-body:AddVersion:error-after-1-chunk", "broken-body:AddSnapshot:error-after-2-chunks", "large:AddVersion:limit/one-chunk:status=200", "large:AddVersion:limit+1/one-chunk:status=400", "large:AddSnapshot:limit+1/limit-then-1:status=400", "MustRefuse", "MustServe", "Ambiguous"]);
     } else {
         required.extend(["|409", "|410", "|500", "|403", "unknown-route|"]);
     }
